@@ -326,6 +326,8 @@ def rule_a(ctx: Ctx) -> None:
                 tv = (st.targets[0].id, st.value)
             elif isinstance(st, ast.NamedExpr) and isinstance(st.target, ast.Name):
                 tv = (st.target.id, st.value)
+            elif isinstance(st, ast.AnnAssign) and isinstance(st.target, ast.Name) and st.value is not None:
+                tv = (st.target.id, st.value)
             if tv:
                 k = childlist(tv[1])
                 if k:
